@@ -147,6 +147,15 @@ func c01Workload[T any](rep *Report, codec Codec[T], api string, rng *rand.Rand,
 	}
 }
 
+func hangSeen(rep *Report) bool {
+	for _, v := range rep.Violations {
+		if strings.HasSuffix(v.Key, ":hang") {
+			return true
+		}
+	}
+	return false
+}
+
 func runC01(rep *Report, tier string, seed int64) {
 	rep.Rule = "workload = N concurrent Echo calls in both directions on one healthy link; the message transport delivers pending frames in random / reverse order or holds all responses back until every request was handled; " +
 		"oracle: each call returns the serial+arguments of exactly one invocation on the peer carrying its own arguments. distinct = (codec, api, pattern, N, seed) tuples"
@@ -158,6 +167,9 @@ func runC01(rep *Report, tier string, seed int64) {
 	for i := 0; i < rounds; i++ {
 		for _, pat := range []string{"random", "lifo", "holdback"} {
 			for _, api := range apis() {
+				if hangSeen(rep) {
+					return // calls hang: every further workload would only wait for the watchdog again
+				}
 				n := 2 + rng.Intn(maxN-1)
 				switch i % 3 {
 				case 0:
